@@ -123,7 +123,12 @@ class Armorable(metaclass=abc.ABCMeta):
         if m is None:  # pragma: no cover
             raise ValueError("Expected: ASCII-armored PGP data")
 
+        crlf_framed = m.group(0).startswith('-----BEGIN PGP SIGNED MESSAGE-----\r\n')
         m = m.groupdict()
+
+        if crlf_framed and m['cleartext'].endswith('\r'):
+            # the framework's line endings are CR LF: the CR before the signature block is not part of the text
+            m['cleartext'] = m['cleartext'][:-1]
 
         if m['hashes'] is not None:
             m['hashes'] = m['hashes'].split(',')
